@@ -144,7 +144,7 @@ func c04r1(c *core.Ctx) {
 				if _, isLoad := core.FieldLoad(a[0], spec.typ, spec.master); isLoad {
 					m = true
 				}
-				if m && a[1] == ssa.Value(g.Params[1]) && a[2] == ssa.Value(g.Params[2]) {
+				if m && unchangedValue(a[1], g.Params[1], 0) && unchangedValue(a[2], g.Params[2], 0) {
 					ok = true
 				}
 			}
@@ -937,6 +937,7 @@ func c04r5(c *core.Ctx) {
 			c.Check(v == m[k], name+":"+k, obj.Pos(), fmt.Sprintf("%s = %d", k, v), fmt.Sprintf("%s = %d, the specification assigns %d", k, v, m[k]))
 		}
 	}
+	hapConstantsTable(c)
 	tab("tag", specTags)
 	tab("setup-state", specSetupStates)
 	tab("verify-state", specVerifyStates)
@@ -971,4 +972,42 @@ func c04r5(c *core.Ctx) {
 func c04r6(c *core.Ctx) {
 	c06r1(c)
 	c06r4(c)
+}
+
+// hapConstantsTable (C04-R5, C09-R2, C11-R3): the numeric status codes and the content types are the specification's.
+func hapConstantsTable(c *core.Ctx) {
+	// HAP status codes and content types (table 5-12 and section 5.x of the specification): what a controller reads in a multi-status
+	// answer, and what it sends / expects as Content-Type
+	p := c.P
+	if hp := p.Pkg("hap"); hp != nil {
+		status := map[string]int64{"StatusSuccess": 0, "StatusInsufficientPrivileges": -70401, "StatusServiceCommunicationFailure": -70402, "StatusResourceBusy": -70403,
+			"StatusReadOnlyCharacteristic": -70404, "StatusWriteOnlyCharacteristic": -70405, "StatusNotificationNotSupported": -70406, "StatusOutOfResource": -70407,
+			"StatusOperationTimedOut": -70408, "StatusResourceDoesNotExist": -70409, "StatusInvalidValueInRequest": -70410}
+		var ks []string
+		for k := range status {
+			ks = append(ks, k)
+		}
+		sort.Strings(ks)
+		for _, k := range ks {
+			obj, _ := hp.Types.Scope().Lookup(k).(*types.Const)
+			if obj == nil {
+				c.Note("status:"+k, token.NoPos, "constant not declared")
+				continue
+			}
+			v, _ := constant.Int64Val(constant.ToInt(obj.Val()))
+			c.Check(v == status[k], "status:"+k, obj.Pos(), fmt.Sprintf("%s = %d", k, v), fmt.Sprintf("%s = %d, the specification assigns %d", k, v, status[k]))
+		}
+		for k, want := range map[string]string{"HTTPContentTypePairingTLV8": "application/pairing+tlv8", "HTTPContentTypeHAPJson": "application/hap+json"} {
+			obj, _ := hp.Types.Scope().Lookup(k).(*types.Const)
+			if obj == nil {
+				c.Note("content-type:"+k, token.NoPos, "constant not declared")
+				continue
+			}
+			got := ""
+			if obj.Val().Kind() == constant.String {
+				got = constant.StringVal(obj.Val())
+			}
+			c.Check(got == want, "content-type:"+k, obj.Pos(), k+" = "+want, fmt.Sprintf("%s = %q, the specification says %q", k, got, want))
+		}
+	}
 }
